@@ -12,9 +12,9 @@ git apply $m/patch$k.diff || { echo "APPLY FAILED"; exit 2; }
 echo "== build with patch"; ninja -C build -j6 > build_mut.log 2>&1; rcb=$?; echo "build rc=$rcb"; tail -3 build_mut.log
 echo "== demo with patch"; bash $m/demo$k.sh $wt/build; rc1=$?; echo "rc=$rc1"
 echo "== existing tests with patch: ctest -R '$rx'"
-ctest --test-dir build -j6 --timeout 600 -R "$rx" > ctest_mut.log 2>&1; rct=$?; tail -5 ctest_mut.log
+ctest --test-dir build -j6 --timeout 600 -R "$rx" ${CTEST_EXCLUDE:+-E "$CTEST_EXCLUDE"} > ctest_mut.log 2>&1; rct=$?; tail -5 ctest_mut.log
 git checkout -- . ; ninja -C build -j6 >/dev/null 2>&1
-mkdir -p $out; cp $m/patch$k.diff $out/patch.diff; cp $m/demo$k.* $m/README$k.md $out/ 2>/dev/null; cp $m/demo_common.sh $out/ 2>/dev/null
+mkdir -p $out; cp $m/patch$k.diff $out/patch.diff; cp -r $m/demo$k* $m/gen$k.py $m/README$k.md $out/ 2>/dev/null; cp $m/demo_common.sh $out/ 2>/dev/null
 tests_summary=$(grep "tests passed\|tests failed" $wt/ctest_mut.log | tail -1)
 python3 - <<PY
 import json
